@@ -1383,6 +1383,67 @@ fn readflush_case(rng: &mut Rng, out: &mut Out, dir: &str, idx: u64) {
     let _ = std::fs::remove_file(&path);
 }
 
+/// the direct-I/O code paths of `DiskIO` (block-aligned `AlignedBuffer`s handed to pread / pwrite): the store never
+/// takes them in this sandbox (`/.dockerenv` makes it open without O_DIRECT), but `DiskIO::new(file, true)` selects
+/// them on an ordinary descriptor.  The same random sequence of sector writes, batch writes and reads is applied to a
+/// buffered and to a direct `DiskIO` over two files: every read and the final bytes must agree.  (The run is part
+/// of the AddressSanitizer workload: the aligned allocations are made, filled, read and released here.)
+fn directio_case(rng: &mut Rng, out: &mut Out, dir: &str, idx: u64) {
+    use feoxdb::storage::io::DiskIO;
+    let blocks = rng.range(24, 96) as usize;
+    let mk = |name: &str| -> Option<(String, Arc<std::fs::File>)> {
+        let p = format!("{}/directio{}_{}.bin", dir, idx, name);
+        let _ = std::fs::remove_file(&p);
+        let f = std::fs::OpenOptions::new().read(true).write(true).create(true).open(&p).ok()?;
+        f.set_len(blocks as u64 * BS).ok()?;
+        Some((p, Arc::new(f)))
+    };
+    let (Some((pa, fa)), Some((pb, fb))) = (mk("buffered"), mk("direct")) else { return };
+    let (Ok(mut a), Ok(mut b)) = (DiskIO::new(fa, false), DiskIO::new(fb, true)) else { return };
+    let mut bad: Option<String> = None;
+    for step in 0..rng.range(20, 120) {
+        let sector = rng.below(blocks as u64 - 1);
+        let n = rng.range(1, (blocks as u64 - sector).min(5)) as usize;
+        match rng.below(4) {
+            0 => {
+                let data = rng.bytes(n * BS as usize);
+                let (ra, rb) = (a.write_sectors_sync(sector, &data), b.write_sectors_sync(sector, &data));
+                if ra.is_ok() != rb.is_ok() && bad.is_none() { bad = Some(format!("step {}: write_sectors_sync({}, {} blocks): buffered {:?}, direct {:?}", step, sector, n, ra.is_ok(), rb.is_ok())); }
+            }
+            1 => {
+                let mut ws: Vec<(u64, Vec<u8>)> = vec![];
+                let mut at = sector;
+                for _ in 0..rng.range(1, 4) {
+                    if at + 1 >= blocks as u64 { break; }
+                    let m = rng.range(1, (blocks as u64 - at).min(3)) as usize;
+                    ws.push((at, rng.bytes(m * BS as usize)));
+                    at += m as u64 + rng.below(2);
+                }
+                let (ra, rb) = (a.batch_write(ws.clone()), b.batch_write(ws));
+                if ra.is_ok() != rb.is_ok() && bad.is_none() { bad = Some(format!("step {}: batch_write at {}: buffered {:?}, direct {:?}", step, sector, ra.is_ok(), rb.is_ok())); }
+            }
+            _ => {
+                let (ra, rb) = (a.read_sectors_sync(sector, n as u64), b.read_sectors_sync(sector, n as u64));
+                match (ra, rb) {
+                    (Ok(x), Ok(y)) => { if x != y && bad.is_none() { bad = Some(format!("step {}: read_sectors_sync({}, {}) differs between the buffered and the direct path ({} vs {} bytes)", step, sector, n, x.len(), y.len())); } }
+                    (x, y) => { if x.is_ok() != y.is_ok() && bad.is_none() { bad = Some(format!("step {}: read_sectors_sync({}, {}): buffered ok={}, direct ok={}", step, sector, n, x.is_ok(), y.is_ok())); } }
+                }
+            }
+        }
+    }
+    let _ = a.flush();
+    let _ = b.flush();
+    a.shutdown();
+    b.shutdown();
+    drop(a);
+    drop(b);
+    if bad.is_none() && std::fs::read(&pa).ok() != std::fs::read(&pb).ok() { bad = Some("the files written through the buffered and through the direct path differ".into()); }
+    out.count("directio case");
+    if let Some(b) = bad { out.failures.push(format!("C20\tdirect-I/O paths of DiskIO vs the buffered ones: {}\t-", b)); }
+    let _ = std::fs::remove_file(&pa);
+    let _ = std::fs::remove_file(&pb);
+}
+
 /// the live io_uring path with a device that rejects writes: the store is opened with the ring enabled (every
 /// other case forces the synchronous path for determinism), then the file-size limit of the process is lowered so
 /// that ring writes past it complete with EFBIG.  flush(), reads and drop must all return; with room again a
@@ -2039,6 +2100,9 @@ fn main() {
     }
     for i in 0..get("scanrace", 0) {
         scanrace_case(&mut rng, &mut out, &args.out, i);
+    }
+    for i in 0..get("directio", 0) {
+        directio_case(&mut rng, &mut out, &args.out, i);
     }
     for i in 0..get("ring", 0) {
         ring_case(&mut rng, &mut out, &args.out, i);
